@@ -176,7 +176,11 @@ class History:
         self.viol: list[Violation] = []
         self.blocked = None
         self.model = Model()
-        self.w = World(rseed=trace.get("rseed", 0), pack_limit=pack_limit, sched=sched)
+        # (a trace may ask for a lowered FOLDER_SIZE_PACK_LIMIT so that the management task packs the folder
+        #  during the history: renumbering the files must not be visible through IMAP - seeded/C05-4)
+        self.w = World(rseed=trace.get("rseed", 0), pack_limit=pack_limit if pack_limit is not None else trace.get("pack_limit"), sched=sched)
+        if trace.get("pack_limit"):
+            self.res.labels.append("pack-limit-lowered")
         self.ss: dict[str, SessState] = {}
         self.obs: ImapSession | None = None
         self.transcript = []
@@ -719,8 +723,12 @@ class Runner(History):
         if rs is None:
             return None
         text, den = rs
-        what = ["(UID FLAGS)", "(UID BODY.PEEK[HEADER.FIELDS (X-VF-Tag)])", "(UID BODY[HEADER.FIELDS (X-VF-Tag)])", "(UID FLAGS BODY[TEXT])", "(UID RFC822.SIZE)", "(UID BODY.PEEK[])"][s.get("what", 0) % 6]
-        nonpeek = "BODY[" in what
+        # (the PEEK forms with a partial, RFC822.HEADER and two attributes in one FETCH were added after seeded/C04-4:
+        #  a parser branch that drops `peek` for BODY.PEEK[..]<o.n>)
+        WHATS = ["(UID FLAGS)", "(UID BODY.PEEK[HEADER.FIELDS (X-VF-Tag)])", "(UID BODY[HEADER.FIELDS (X-VF-Tag)])", "(UID FLAGS BODY[TEXT])", "(UID RFC822.SIZE)", "(UID BODY.PEEK[])",
+                 "(UID BODY.PEEK[TEXT]<0.8>)", "(UID BODY.PEEK[]<0.2048>)", "(UID RFC822.HEADER)", "(UID BODY.PEEK[HEADER]<3.5> FLAGS)", "(UID BODY[]<0.10>)", "(UID RFC822.TEXT)"]
+        what = WHATS[s.get("what", 0) % len(WHATS)]
+        nonpeek = "BODY[" in what.replace("BODY.PEEK[", "") or "RFC822.TEXT" in what
         targets = self.addressed(st, den, uid_mode)
         ambiguous = targets is None
         targets = targets or []
